@@ -737,6 +737,12 @@ impl PredicatePushdown {
         // Build result: common conditions + simplified OR
         let mut result = common;
 
+        // A branch made of the common conditions alone is TRUE once they are factored
+        // out, and so is the whole OR: `(A AND B) OR A` is `A`, not `A AND B`.
+        if remaining_branches.iter().any(|branch| branch.is_empty()) {
+            return Some(result);
+        }
+
         // Only add the OR if branches have remaining conditions
         let non_empty_branches: Vec<Expr> = remaining_branches
             .into_iter()
